@@ -441,6 +441,11 @@ func (c *Ctx) fileFieldWrites(fn *ssa.Function) []fileWrite {
 		switch x := in.(type) {
 		case *ssa.Store:
 			if fa, ok := x.Addr.(*ssa.FieldAddr); ok && isFileHolder(fieldOfAddr(fa).Type()) {
+				// a store into a struct this function has just allocated (an immutable snapshot built before it is
+				// published) is not a write to shared state; its publication (below) is
+				if _, fresh := fa.X.(*ssa.Alloc); fresh {
+					return
+				}
 				out = append(out, fileWrite{Instr: x, Field: fieldOfAddr(fa), Val: x.Val, Op: "store"})
 			}
 		case ssa.CallInstruction:
@@ -449,7 +454,7 @@ func (c *Ctx) fileFieldWrites(fn *ssa.Function) []fileWrite {
 				return
 			}
 			fa, ok := x.Common().Args[0].(*ssa.FieldAddr)
-			if !ok || !isFileHolder(fieldOfAddr(fa).Type()) {
+			if !ok || !(isFileHolder(fieldOfAddr(fa).Type()) || reachesFile(fieldOfAddr(fa).Type(), 0)) {
 				return
 			}
 			name := f.Name()
